@@ -138,7 +138,7 @@ def run(c, facts, tier):
                         keys.add(kv[0])
             for key in keys:
                 # the key must be built from the parameters themselves (copies), not from a function of them that could merge requests
-                stripped = re.sub(r'"\{@\d+\}"|@\d+|self\.(files|default_port)\.[a-z_]+\([^()]*(\([^()]*\))?[^()]*\)\.unwrap\(\)|self\.default_port\.unwrap\(\)|Target::(File|Stdout)|[(),]', "", key)
+                stripped = re.sub(r'"\{@\d+\}"|@\d+|self\.(files|default_port)\.[a-z_]+\([^()]*(\([^()]*\))?[^()]*\)\.unwrap\(\)|self\.default_port\.unwrap\(\)|OpenPort\{mutex:v(\+\d+)?,port:v(\+\d+)?\}|Target::(File|Stdout)|[(),]', "", key)
                 inj = stripped.strip() == ""
                 c.ob("C11.key", site, "sharing key is made of the request parameters themselves", inj, "key %s%s" % (key, "" if inj else " — contains a derived value (%s): two different requests may map to one key and share a resource" % stripped.strip()[:60]), witness="-name Makefile -o -name makefile" if not inj else None)
                 missing = [i for i in range(nparams) if "@%d" % i not in key]
